@@ -81,6 +81,15 @@ def rand_transcript(r, idx, tn=TN_PLAIN, gene=False):
             cds.append((ca, cb))
     for i, (a, b) in enumerate(cds):
         lines.append(gen_db.gff_line("chr1", tn["CDS"], a, b, strand, [("ID", ["%sc%d" % (tid, i)]), ("Parent", [tid])]))
+    if exons and not gene and tn is TN_PLAIN and r.random() < 0.15:
+        # the same exon line twice, without an ID attribute (two stored features, exon_<n> and exon_<n+1>): two blocks
+        a, b = exons[-1][1] + 10, exons[-1][1] + 40
+        for _ in range(2):
+            lines.append(gen_db.gff_line("chr1", "exon", a, b, strand, [("Parent", [tid])]))
+        exons = exons + [(a, b), (a, b)]
+        if not mism:
+            tend = b
+            lines[0] = gen_db.gff_line("chr1", "mRNA", tstart, tend, strand, attrs, score=score)
     utr = []
     if exons and r.random() < 0.4:
         utr = [exons[0]]
